@@ -608,6 +608,10 @@ fn run_ib(c: &Case, ops: &[Op], intents: &[IntentSpec]) -> RunOut {
             }
             Op::SetPol(_, p) => {
                 ib.set_policy(p.real());
+                // a stricter policy must not be bypassed by what was accepted earlier
+                if pending_of(&ib).iter().any(|e| !ib.would_accept(e)) {
+                    o.flags.push("pending-violates-new-policy".into());
+                }
                 o.outs.push("U1".into());
             }
             Op::Elig(..) => o.outs.push("U0".into()),
